@@ -137,3 +137,16 @@ TEXT["C16"] = dict(
                "are exercised with a trivially destructible type only, as documented.",
     level_note="trusts std::deque and the ledger; preconditions (capacity respected, pop on non-empty) are "
                "generator invariants; a moved-from buffer is only destroyed, assigned to or re-allocated")
+TEXT["C13"] = dict(
+    engine="differential",
+    design_ref="DESIGN.md section 4, C13",
+    technique="runtime lock-step differential monitor vs sorted-multiset / membership-set models after every heap operation, with tlx's internal asserts enabled, under ASan+UBSan",
+    level_text="Random operation histories over all three heaps (arities 1..8; comparators over external "
+               "priority tables whose entries rise and fall between update() calls; build_heap on empty and "
+               "non-empty heaps; radix heaps for every signed/unsigned key width x radix 2..64 with keys at the "
+               "type extremes and equal to the current limit). After every operation size, top (a member with "
+               "minimal priority), contains() for the whole key universe and beyond, peak_top_key(), the contents "
+               "of swap_top_bucket() and sanity_check() are compared with the model; drains must be ordered and "
+               "multiset-equal. Exploration: held on the histories generated.",
+    level_note="trusts the linear-scan models; any element among equal priorities may surface; radix heap only "
+               "driven inside its documented monotonicity precondition")
